@@ -1,81 +1,52 @@
-"""C07 simulation: two or three REAL DataServer objects (shells: no sockets, no thread pool, no shm
-server) driven one `recv_loop` iteration at a time over a fake network.
+"""C07 simulation: two or three REAL DataServer objects, each with its REAL Executor front (shells: no
+sockets, no processes) and its REAL shm store, driven one loop iteration / one pool-job stage at a time
+over a fake network.
 
-What is real:  DataServer.recv_loop / maybe_clean / send_payload / store_payload, comms.Listener
-               (_recv_one, recv_messages), comms.send_data / callback, serde (pickle framing), msg.
-What is fake:  zmq sockets + poller (in-memory queues), the thread pool (ManualPool: jobs are run when
-               the harness says so; `wait` = run the awaited pending jobs), the shm client module
-               (dict store: allocate -> ConflictError if the key exists, get, purge -> ValueError if
-               the key is unknown, which is what the real client raises on the server's KeyError),
-               the clock (data_server.time_ns).
+What is real:  DataServer.recv_loop / maybe_clean / send_payload / store_payload, Executor.recv_loop (the
+               DatasetPublished / DatasetTransmitFailure / DatasetPurge branches), Bridge.transmit / fetch (the
+               command constructor and its index counter, used by the generator), comms.Listener (_recv_one,
+               recv_messages), comms.send_data / callback, serde (pickle framing), msg,
+               the WHOLE shm path: cascade.shm.client (allocate / get / purge / AllocatedBuffer / close_callback,
+               _send_command with its wait-retry-timeout loop), api.ser/deser, server.LocalServer.start dispatch,
+               dataset.Manager, real POSIX SharedMemory segments (unique prefix per process and host).
+What is fake:  zmq sockets + poller (in-memory queues), the UDP socket between shm client and shm server (the
+               request is handed to a LocalServer shell of the calling host in-process), time.sleep of the shm
+               client (no-op, counted), the thread pool (ManualPool: a job runs in its own thread but only when the
+               harness hands it the baton, and it can be stopped at the stage boundaries "allocate granted",
+               "writer closed", "get granted"; `wait` = run the awaited pending jobs to their end), the clock
+               (data_server.time_ns), Executor's sender / workers / child processes (stubs).
+Faults:        injected at the shm-server / socket boundary while the real client code runs: allocate or get
+               answered "wait" for ever (-> TimeoutError after the client's 600 polls) or "capacity exceeded", the
+               writer's close callback refused, the local push of DatasetPublished or the payload send raising
+               once, the reader's close callback raising after it was served (-> the exception escapes
+               send_payload's `finally` into the Future).
 """
+import itertools
+import os
 import pickle
+import threading
+import types
 from concurrent.futures import ALL_COMPLETED, FIRST_COMPLETED, Future
 
 MS = 1_000_000
+_counter = itertools.count()
 
 
-class Conflict(Exception):
+def _b36(n):
+    s = ""
+    while True:
+        n, r = divmod(n, 36)
+        s = "0123456789abcdefghijklmnopqrstuvwxyz"[r] + s
+        if n == 0:
+            return s
+
+
+class _Abort(BaseException):
     pass
 
 
-class _Buf:
-    def __init__(self, world, host, key, l, deser_fun, create):
-        self.world, self.host, self.key, self.l, self.deser_fun, self.create = world, host, key, l, deser_fun, create
-        self.closed = False
-        if create:
-            self.data = bytearray(l)
-        else:
-            self.data = world.stores[host][key][0]
-
-    def view(self):
-        return memoryview(self.data) if self.create else memoryview(bytes(self.data)).toreadonly()
-
-    def close(self):
-        if self.closed:
-            return
-        self.closed = True
-        w = self.world
-        if self.create:
-            w.stores[self.host][self.key] = (bytes(self.data), self.deser_fun)
-            w.pending_alloc[self.host].discard(self.key)
-            w.obs("stored", h=self.host, key=self.key, value=bytes(self.data), deser=self.deser_fun)
-
-
-class FakeShm:
-    """Stands in for the module `cascade.shm.client` inside data_server."""
-    ConflictError = Conflict
-    AllocatedBuffer = _Buf
-
-    def __init__(self, world):
-        self.w = world
-
-    def allocate(self, key, l, deser_fun, timeout_sec=60.0):
-        w = self.w
-        h = w.cur
-        if key in w.stores[h] or key in w.pending_alloc[h]:
-            w.obs("conflict", h=h, key=key)
-            raise Conflict()
-        w.pending_alloc[h].add(key)
-        return _Buf(w, h, key, l, deser_fun, True)
-
-    def get(self, key, timeout_sec=60.0):
-        w = self.w
-        h = w.cur
-        if key not in w.stores[h]:
-            raise ValueError("KeyError(%r)" % key)
-        v, f = w.stores[h][key]
-        return _Buf(w, h, key, len(v), f, False)
-
-    def purge(self, key):
-        w = self.w
-        h = w.cur
-        if key not in w.stores[h]:
-            raise ValueError("KeyError(%r)" % key)
-        w.obs("shm-purge", h=h, key=key,
-              pool_pending=[w.job_ds(j) for j in w.pools[h].jobs],
-              inprog=[w.key_ds(k) for k in w.srv[h].futs_in_progress])
-        del w.stores[h][key]
+class InjectedSendError(OSError):
+    pass
 
 
 class OutSocket:
@@ -88,11 +59,33 @@ class OutSocket:
     def connect(self, a):
         pass
 
-    def send(self, b):
+    def send(self, b, *a, **k):
         self.w.route(self.address, [bytes(b)])
 
-    def send_multipart(self, parts):
-        self.w.route(self.address, [bytes(p) for p in parts])
+    def send_multipart(self, parts, flags=0, copy=True, track=False, **k):
+        # zmq with copy=True reads the buffers while the call runs; with copy=False it keeps a reference to
+        # each buffer until the io thread has sent it, i.e. beyond the call: the fake keeps the caller's
+        # objects in the frame, they are read when the frame is looked at (a memoryview of a segment is then
+        # still exported when the caller closes the segment, or already released)
+        if copy:
+            self.w.route(self.address, [bytes(p) for p in parts])
+        else:
+            self.w.route(self.address, _Lazy(parts))
+
+
+class _Lazy(list):
+    """frames handed over without copying: materialised on first use"""
+    done = False
+
+    def fix(self):
+        if not self.done:
+            for i, p in enumerate(list(self)):
+                try:
+                    self[i] = bytes(p)
+                except Exception as e:
+                    self[i] = b"<buffer gone: %s>" % type(e).__name__.encode()
+            self.done = True
+        return self
 
 
 class InSocket:
@@ -111,47 +104,185 @@ class Poller:
         return [(self.sock, 1)] if self.sock.queue else []
 
 
+class _ShmSock:
+    """scripted datagram socket of one LocalServer shell: one request, then the shutdown command"""
+
+    def __init__(self, msgs):
+        self.inbox, self.sent = list(msgs), []
+
+    def recvfrom(self, n):
+        return self.inbox.pop(0), "client"
+
+    def sendto(self, b, addr):
+        self.sent.append(b)
+
+    def close(self):
+        pass
+
+
+class _ClientSock:
+    """stands in for the UDP socket of `cascade.shm.client._send_command`"""
+
+    def __init__(self, world):
+        self.w = world
+        self.req = None
+
+    def connect(self, a):
+        pass
+
+    def send(self, b):
+        self.req = bytes(b)
+
+    def recv(self, n):
+        return self.w.shm_request(self.req)
+
+    def close(self):
+        pass
+
+
+class Job:
+    """one submitted pool job; runs in its own thread, one baton"""
+
+    def __init__(self, pool, fut, fn, args):
+        self.pool, self.fut, self.fn, self.args = pool, fut, fn, args
+        self.thread = None
+        self.go = threading.Semaphore(0)
+        self.back = threading.Semaphore(0)
+        self.stepping = False
+        self.abort = False
+        self.finished = False
+        self.stage = 0
+        self.fault = None        # armed for the stage that is about to run
+
+    def _body(self):
+        self.go.acquire()
+        try:
+            if not self.abort:
+                try:
+                    self.fut.set_result(self.fn(*self.args))
+                except _Abort:
+                    pass
+                except Exception as e:
+                    self.fut.set_exception(e)
+        finally:
+            self.finished = True
+            self.back.release()
+
+    def pause(self):
+        """called from inside the job at a stage boundary"""
+        self.stage += 1
+        self.fault = None
+        if self.stepping:
+            self.back.release()
+            self.go.acquire()
+            if self.abort:
+                raise _Abort()
+
+    def resume(self, stepping, fault=None):
+        w = self.pool.w
+        prev = (w.cur, w.cur_job)
+        w.cur, w.cur_job = self.pool.host, self
+        self.stepping = stepping
+        self.fault = fault
+        if self.thread is None:
+            self.thread = threading.Thread(target=self._body, daemon=True)
+            self.thread.start()
+        self.go.release()
+        self.back.acquire()
+        self.fault = None
+        w.cur, w.cur_job = prev
+        if self.finished and self in self.pool.jobs:
+            self.pool.jobs.remove(self)
+            a = self.args[0]
+            w.observations.append({"kind": "job-done", "h": self.pool.host, "job": self.name, "op": w.opno, "now": w.now_ms,
+                                   "idx": a.idx if self.name == "send_payload" else a.header.confirm_idx,
+                                   "ds": w.job_ds(self), "exc": self.fut.done() and self.fut.exception() is not None})
+
+    @property
+    def name(self):
+        return self.fn.__name__
+
+
 class ManualPool:
     def __init__(self, world, host):
         self.w, self.host, self.jobs = world, host, []
 
     def submit(self, fn, *a):
         f = Future()
-        self.jobs.append((f, fn, a))
+        self.jobs.append(Job(self, f, fn, a))
         self.w.on_submit(self.host, fn, a)
         return f
 
-    def run(self, i):
-        f, fn, a = self.jobs.pop(i)
-        prev = self.w.cur_job
-        self.w.cur_job = (fn.__name__, a)
-        try:
-            f.set_result(fn(*a))
-        except Exception as e:   # never expected: both job bodies catch Exception
-            f.set_exception(e)
-        finally:
-            self.w.cur_job = prev
+    def job_of(self, fut):
+        for j in self.jobs:
+            if j.fut is fut:
+                return j
+        return None
+
+
+class _NoDisk:
+    def page_in(self, *a):
+        raise RuntimeError("C07 harness: paging is not expected")
+
+    page_out = page_in
+
+    def atexit(self):
+        pass
+
+
+class StubProc:
+    exitcode = None
+    pid = 0
+
+
+class FakeSender:
+    def __init__(self, world, h):
+        self.w, self.h = world, h
+
+    def send(self, host, m):
+        self.w.to_controller(self.h, m)
+
+    def ack(self, idx):
+        pass
+
+    def maybe_retry(self):
+        pass
+
+
+class FakeWatcher:
+    def step(self):
+        pass
+
+    def is_breach(self):
+        return 0
+
+    def elapsed_ms(self):
+        return 0
 
 
 class World:
     """The real side. `apply(op)` executes one op and returns the abstract state in the model's format."""
 
-    def __init__(self, n, stores):
+    def __init__(self, n, stores, published=None):
+        import multiprocessing.resource_tracker as rt
         import cascade.executor.comms as comms
         import cascade.executor.data_server as dsv
+        import cascade.executor.executor as xmod
+        import cascade.executor.bridge as bridge
+        import cascade.shm.api as shm_api
+        import cascade.shm.client as shm_client
+        import cascade.shm.dataset as shm_dataset
+        import cascade.shm.server as shm_server
         from cascade.executor import msg as M
         from cascade.executor.runner.memory import ds2shmid
         from cascade.low.core import DatasetId
-        self.comms, self.dsv, self.M = comms, dsv, M
+        self.comms, self.dsv, self.M, self.xmod = comms, dsv, M, xmod
+        self.shm_api, self.shm_client, self.shm_dataset, self.shm_server = shm_api, shm_client, shm_dataset, shm_server
         self.DatasetId, self.ds2shmid = DatasetId, ds2shmid
         self.n = n
         self.now_ms = 1
         self.hosts = list(range(1, n + 1))
         self.key2ds = {}
-        self.stores = {h: {} for h in self.hosts}
-        self.pending_alloc = {h: set() for h in self.hosts}
-        for h, d, v, f in stores:
-            self.stores[h][self.key(d)] = (bytes.fromhex(v), f)
         self.net = []            # [(address, [frames])]
         self.events = []         # model-comparable events of the current op
         self.observations = []   # raw observations for the oracle (whole history)
@@ -161,12 +292,26 @@ class World:
         self.crashed = {h: False for h in self.hosts}
         self.seen_submit = {h: set() for h in self.hosts}
         self.opno = 0
+        self.sleeps = 0
+        self.closed = False
+        self._segcache = {}
+        self.lazy = []
+        self.pending_sent = []
         # ---- module globals replaced
+        # one process plays shm server and all clients: the per-process resource tracker would see
+        # double (un)registrations of the same segment; it is not part of the store
+        rt.register = lambda *a, **k: None
+        rt.unregister = lambda *a, **k: None
         comms.get_socket = lambda address: OutSocket(self, address)
         dsv.time_ns = lambda: self.now_ms * MS
-        dsv.shm_client = FakeShm(self)
+        dsv.shm_client = shm_client          # the REAL client module
         dsv.wait = self.fake_wait
         dsv.mark = lambda *a, **k: None
+        xmod.mark = lambda *a, **k: None
+        shm_dataset.get_capacity = lambda: 1 << 40
+        shm_api.get_client_port = lambda: 0
+        shm_client.socket = types.SimpleNamespace(socket=lambda *a, **k: _ClientSock(self), AF_INET=0, SOCK_DGRAM=0)
+        shm_client.time = types.SimpleNamespace(sleep=self._sleep)
         world = self
 
         class Shell(dsv.DataServer):
@@ -181,23 +326,95 @@ class World:
             def terminating(s, v):
                 pass
 
-        self.srv, self.pools = {}, {}
+        class XShell(xmod.Executor):
+            @property
+            def terminating(s):
+                if s._arm > 0:
+                    s._arm -= 1
+                    return False
+                return True
+
+            @terminating.setter
+            def terminating(s, v):
+                s._terminated = bool(v) or getattr(s, "_terminated", False)
+
+            def terminate(s):
+                s._terminated = True
+
+        self.srv, self.pools, self.mgr, self.exe = {}, {}, {}, {}
+        tag = "e7%s%s" % (_b36(os.getpid()), _b36(next(_counter)))
         for h in self.hosts:
-            s = object.__new__(Shell)
-            s._arm = 0
-            s.host = self.hname(h)
-            s.maddress = "m:" + self.hname(h)
-            s.daddress = self.aname(h)
-            s.dlistener = self.mk_listener(self.aname(h))
-            s.cap = 2
+            prefix = "%s%d_" % (tag, h)
+            for nm in os.listdir("/dev/shm"):      # leftovers of a dead process that had our pid
+                if nm.startswith(prefix):
+                    try:
+                        os.unlink("/dev/shm/" + nm)
+                    except OSError:
+                        pass
+            # nothing is ever paged here (capacity 16 MiB, datasets of a few bytes): the Manager gets a Disk
+            # without temporary directory and thread pools (both cost ~20 ms per host on a busy machine)
+            real_disk = shm_dataset.disk.Disk
+            shm_dataset.disk.Disk = _NoDisk
+            try:
+                m = shm_dataset.Manager(prefix, capacity=1 << 24)
+            finally:
+                shm_dataset.disk.Disk = real_disk
+            self.mgr[h] = m
+            # the REAL DataServer.__init__ runs (so that whatever state it sets up exists), with the things
+            # that would touch the outside world replaced for the duration of the call
             self.pools[h] = ManualPool(self, h)
-            s.ds_proc_tp = self.pools[h]
-            s.futs_in_progress = {}
-            s.awaiting_confirmation = {}
-            s.invalid = set()
-            s.acks = set()
+            saved = (dsv.Listener, dsv.ThreadPoolExecutor, dsv.label, dsv.logging.config.dictConfig,
+                     dsv.shm_api.publish_client_port)
+            dsv.Listener = self.mk_listener
+            dsv.ThreadPoolExecutor = lambda *a, **k: self.pools[h]
+            dsv.label = lambda *a, **k: None
+            dsv.logging.config.dictConfig = lambda *a, **k: None
+            dsv.shm_api.publish_client_port = lambda *a, **k: None
+            try:
+                s = object.__new__(Shell)
+                s._arm = 0
+                dsv.DataServer.__init__(s, "m:" + self.hname(h), self.aname(h), self.hname(h), 0, {"version": 1})
+            finally:
+                (dsv.Listener, dsv.ThreadPoolExecutor, dsv.label, dsv.logging.config.dictConfig,
+                 dsv.shm_api.publish_client_port) = saved
             self.srv[h] = s
+            x = object.__new__(XShell)
+            x._arm = 0
+            x._terminated = False
+            x.host = self.hname(h)
+            x.mlistener = self.mk_listener("m:" + self.hname(h))
+            x.sender = FakeSender(self, h)
+            x.workers = {}
+            x.datasets = set()
+            x.daddress = self.aname(h)
+            x.heartbeat_watcher = FakeWatcher()
+            x.shm_process = StubProc()
+            x.data_server = StubProc()
+            x.registration = None
+            self.exe[h] = x
         self.ctrl = self.mk_listener("ctrl")
+        for d in range(32):
+            self.key(d)
+        # the controller's command constructor (real Bridge.transmit / fetch)
+        b = object.__new__(bridge.Bridge)
+        b.transmit_idx_counter = 0
+        b.mlistener = types.SimpleNamespace(address="ctrl")
+        self._last_cmd = None
+        hosts = {"data." + self.hname(h): (None, self.aname(h)) for h in self.hosts}
+        b.sender = types.SimpleNamespace(hosts=hosts, send=lambda host, m: setattr(world, "_last_cmd", (host, m)))
+        self.bridge = b
+        # ---- initial contents, written through the real client (as a worker's Memory.handle does)
+        for h, d, v, f in stores:
+            self.cur = h
+            val = bytes.fromhex(v)
+            buf = shm_client.allocate(self.key(d), len(val), f)
+            buf.view()[:len(val)] = val
+            buf.close()
+        if published is None:
+            published = [[h, d] for h, d, v, f in stores]
+        for h, d in published:
+            self.exe[h].datasets.add(self.dsid(d))
+        self.cur = None
 
     # ---- naming
     def hname(self, h):
@@ -235,19 +452,112 @@ class World:
         l.acked = set()
         return l
 
+    def _sleep(self, s):
+        self.sleeps += 1
+
+    # ---- the controller's command constructor
+    def bridge_cmd(self, d, source, target):
+        """DatasetTransmitCommand built by the real Bridge (transmit for target >= 1, fetch for target 0)."""
+        self._last_cmd = None
+        if target == 0:
+            self.bridge.fetch(self.dsid(d), self.hname(source))
+        else:
+            self.bridge.transmit(self.dsid(d), self.hname(source), self.hname(target))
+        host, m = self._last_cmd
+        c = self.cmd_json(m)
+        c["via"] = self.hid(host[5:]) if host.startswith("data.") else 999
+        return c
+
+    # ---- the shm server side of a request
+    def segment(self, h, key):
+        from multiprocessing.shared_memory import SharedMemory
+        ds = self.mgr[h].datasets[key]
+        shm = SharedMemory(ds.shmid, create=False)
+        try:
+            return bytes(shm.buf[:ds.size])
+        finally:
+            shm.close()
+
+    def shm_request(self, raw):
+        api = self.shm_api
+        h = self.cur
+        m = self.mgr[h]
+        req = api.deser(raw)
+        job = self.cur_job
+        fault = job.fault if job is not None else None
+        # ---- injected answers of a shm server under memory pressure / in trouble
+        if fault is not None:
+            how = fault
+            if isinstance(req, api.AllocateRequest) and how[0] == "fail":
+                self.count_fault("allocate:" + how[1])
+                return api.ser(api.AllocateResponse(shmid="", error=how[1]))
+            if isinstance(req, api.GetRequest) and how[0] == "fail":
+                self.count_fault("get:wait")
+                return api.ser(api.GetResponse(shmid="", l=0, rdid="", deser_fun="", error="wait"))
+            if isinstance(req, api.CloseCallback) and not req.rdid and how[0] == "fail":
+                self.count_fault("close-writer")
+                return api.ser(api.OkResponse(error="ValueError('injected: close refused')"))
+        pre = None
+        if isinstance(req, api.PurgeRequest):
+            ds = m.datasets.get(req.key)
+            pre = {"present": ds is not None, "status": ds.status.name if ds is not None else None,
+                   "readers": len(ds.ongoing_reads) if ds is not None else 0}
+        srv = object.__new__(self.shm_server.LocalServer)
+        srv.sock = _ShmSock([raw, api.ser(api.ShutdownCommand())])
+        srv.manager = m
+        srv.start()
+        out = srv.sock.sent[0]
+        resp = api.deser(out)
+        err = getattr(resp, "error", "")
+        if isinstance(req, api.AllocateRequest):
+            if err == "conflict":
+                self.obs("conflict", h=h, key=req.key)
+            elif not err and job is not None:
+                job.pause()                      # stage boundary: allocate granted
+        elif isinstance(req, api.CloseCallback):
+            if not req.rdid:
+                if not err:
+                    self.obs("stored", h=h, key=req.key, value=self.segment(h, req.key),
+                             deser=m.datasets[req.key].deser_fun)
+                    if job is not None and job.name == "store_payload":
+                        job.pause()              # stage boundary: writer closed
+            elif fault is not None and fault[0] == "closeExc" and job is not None and job.name == "send_payload":
+                self.count_fault("close-reader")
+                return api.ser(api.OkResponse(error="ValueError('injected: close failed after it was served')"))
+        elif isinstance(req, api.GetRequest):
+            if not err and job is not None and job.name == "send_payload":
+                job.pause()                      # stage boundary: get granted, buffer open
+        elif isinstance(req, api.PurgeRequest):
+            self.obs("shm-purge", h=h, key=req.key, pre=pre, answer=err or "ok",
+                     pool_pending=[self.job_ds(j) for j in self.pools[h].jobs],
+                     inprog=[self.key_ds(k) for k in self.srv[h].futs_in_progress])
+        return out
+
+    def count_fault(self, what):
+        job = self.cur_job
+        last = self.observations[-1] if self.observations else {}
+        if last.get("kind") == "fault" and last.get("what") == what and last.get("op") == self.opno:
+            return            # the client polls a waiting server 600 times
+        self.observations.append({"kind": "fault", "what": what, "op": self.opno, "h": self.cur,
+                                  "job": job.name if job is not None else None,
+                                  "ds": self.job_ds(job) if job is not None else -1})
+
     # ---- instrumentation
     def obs(self, kind, **kw):
         kw["kind"] = kind
         kw["op"] = self.opno
         self.observations.append(kw)
         h = kw.get("h")
+        job = self.cur_job
         if kind == "stored":
-            idx = self.cur_job[1][0].header.confirm_idx if self.cur_job and self.cur_job[0] == "store_payload" else -1
+            idx = job.args[0].header.confirm_idx if job is not None and job.name == "store_payload" else -1
             kw["idx"] = idx
+            if idx == -1:
+                return                        # initial contents written by the harness
             self.events.append({"e": "stored", "h": h, "ds": self.key2ds.get(kw["key"], -1), "idx": idx,
                                 "value": kw["value"].hex(), "deser": kw["deser"]})
         elif kind == "conflict":
-            idx = self.cur_job[1][0].header.confirm_idx if self.cur_job and self.cur_job[0] == "store_payload" else -1
+            idx = job.args[0].header.confirm_idx if job is not None and job.name == "store_payload" else -1
             self.events.append({"e": "redundant", "h": h, "ds": self.key2ds.get(kw["key"], -1), "idx": idx})
         elif kind == "shm-purge":
             d = self.key2ds.get(kw["key"], -1)
@@ -260,7 +570,7 @@ class World:
         return self.dsno(k.header.ds)
 
     def job_ds(self, job):
-        return self.key_ds(job[2][0])
+        return self.key_ds(job.args[0])
 
     def on_submit(self, h, fn, a):
         if fn.__name__ == "send_payload":
@@ -270,52 +580,123 @@ class World:
             self.events.append({"e": "submit", "h": h, "idx": c.idx, "ds": self.dsno(c.ds), "retry": retry})
             self.observations.append({"kind": "submit-send", "h": h, "idx": c.idx, "ds": self.dsno(c.ds), "retry": retry, "op": self.opno})
 
+    def key_json(self, k):
+        if isinstance(k, self.M.DatasetTransmitCommand):
+            return {"k": "cmd", "c": self.cmd_json(k)}
+        return {"k": "pay", "p": self.pay_json(k)}
+
     def route(self, address, parts):
         M = self.M
+        job = self.cur_job
+        if isinstance(parts, _Lazy):
+            if not (len(parts) == 3 and job is not None and job.name == "send_payload"):
+                parts = list(parts.fix())
+            else:
+                # the payload frame of a send job: the socket holds the buffers until the job has returned
+                self.lazy.append(parts)
+                head = [bytes(parts[0]), bytes(parts[1])]
+                hd = pickle.loads(head[1])
+                c = job.args[0]
+                self.net.append((address, parts))
+                self.pending_sent.append((parts, {"h": self.cur, "idx": c.idx, "ds": self.dsno(hd.ds), "deser": hd.deser_fun,
+                                                 "to": address}))
+                return
         if address.startswith("m:"):
             m = pickle.loads(parts[0])
             h = int(address[3:])
             if isinstance(m, M.DatasetPublished):
+                if job is not None and job.fault is not None and job.fault[0] == "fail" and job.name == "store_payload":
+                    job.fault = None
+                    self.count_fault("push-published")
+                    raise InjectedSendError("injected: local push failed")
                 self.events.append({"e": "announced", "h": h, "ds": self.dsno(m.ds), "idx": m.transmit_idx})
                 self.observations.append({"kind": "announced", "h": h, "ds": self.dsno(m.ds), "idx": m.transmit_idx,
                                           "origin": m.origin, "op": self.opno})
             elif isinstance(m, M.DatasetTransmitFailure):
-                if self.cur_job and self.cur_job[0] == "send_payload":
-                    self.events.append({"e": "sendFail", "h": h, "idx": self.cur_job[1][0].idx})
+                info = {}
+                if job is not None and job.name == "send_payload":
+                    self.events.append({"e": "sendFail", "h": h, "idx": job.args[0].idx})
+                    info = {"src": "send", "idx": job.args[0].idx, "ds": self.dsno(job.args[0].ds)}
+                elif job is not None and job.name == "store_payload":
+                    p = job.args[0]
+                    self.events.append({"e": "storeFail", "h": h, "ds": self.dsno(p.header.ds), "idx": p.header.confirm_idx,
+                                        "stage": min(job.stage, 2)})
+                    info = {"src": "store", "idx": p.header.confirm_idx, "ds": self.dsno(p.header.ds), "stage": min(job.stage, 2)}
                 else:
-                    self.events.append({"e": "failure", "h": h, "detail": m.detail[:80]})
-                self.observations.append({"kind": "failure", "h": h, "detail": m.detail, "op": self.opno})
+                    key = None
+                    for k, f in self.srv[h].futs_in_progress.items():
+                        if f.done() and f.exception() is not None:
+                            key = k
+                            break
+                    self.events.append({"e": "futFail", "h": h, "key": self.key_json(key) if key is not None else None})
+                    info = {"src": "future", "ds": self.key_ds(key) if key is not None else -1,
+                            "idx": key.idx if isinstance(key, M.DatasetTransmitCommand) else
+                                   key.header.confirm_idx if key is not None else -1}
+                info.update({"kind": "failure", "h": h, "detail": m.detail, "op": self.opno})
+                self.observations.append(info)
+            elif isinstance(m, M.DatasetPurge):
+                pass
             else:
                 self.events.append({"e": "callback?", "h": h, "type": type(m).__name__})
+            self.exe[h].mlistener.socket.queue.append(list(parts))
             return
-        self.net.append((address, parts))
-        if len(parts) == 3 and self.cur_job and self.cur_job[0] == "send_payload":
+        if address.startswith("ipc://"):
+            return                                   # a worker's socket: no workers here
+        if len(parts) == 3 and job is not None and job.name == "send_payload":
+            if job.fault is not None and job.fault[0] == "fail":
+                job.fault = None
+                self.count_fault("send-data")
+                raise InjectedSendError("injected: send_data failed")
             hd = pickle.loads(parts[1])
-            c = self.cur_job[1][0]
+            c = job.args[0]
             self.events.append({"e": "sent", "h": self.cur, "idx": c.idx, "ds": self.dsno(hd.ds), "value": parts[2].hex(), "deser": hd.deser_fun})
             self.observations.append({"kind": "sent", "h": self.cur, "idx": c.idx, "ds": self.dsno(hd.ds), "value": parts[2],
                                       "deser": hd.deser_fun, "to": address, "op": self.opno})
+        if address.startswith("d:") and len(parts) == 1 and self.cur_exec is not None:
+            m = pickle.loads(parts[0])
+            if isinstance(m, M.DatasetPurge):
+                h = self.cur_exec
+                self.events.append({"e": "purgeFwd", "h": h, "ds": self.dsno(m.ds)})
+                self.observations.append({"kind": "purge-forwarded", "h": h, "ds": self.dsno(m.ds), "op": self.opno})
+                self.srv[self.aid(address)].dlistener.socket.queue.append(list(parts))
+                return
+        self.net.append((address, parts))
+
+    cur_exec = None
+
+    def to_controller(self, h, m):
+        M = self.M
+        if isinstance(m, M.DatasetPublished):
+            self.events.append({"e": "ctrlPub", "h": h, "ds": self.dsno(m.ds), "idx": m.transmit_idx})
+            self.observations.append({"kind": "ctrl-published", "h": h, "ds": self.dsno(m.ds), "idx": m.transmit_idx,
+                                      "origin": m.origin, "op": self.opno})
+        elif isinstance(m, M.DatasetTransmitFailure):
+            self.events.append({"e": "ctrlFail", "h": h})
+            self.observations.append({"kind": "ctrl-failure", "h": h, "detail": m.detail, "op": self.opno})
+        else:
+            self.events.append({"e": "to-controller?", "h": h, "type": type(m).__name__, "what": repr(m)[:120]})
+            self.observations.append({"kind": "ctrl-other", "h": h, "what": repr(m)[:200], "op": self.opno})
 
     def fake_wait(self, futs, timeout=None, return_when=ALL_COMPLETED):
         futs = list(futs)
         pool = self.pools[self.cur]
 
         def cands():
-            return [i for i, j in enumerate(pool.jobs) if any(j[0] is f for f in futs)]
+            return [j for j in pool.jobs if any(j.fut is f for f in futs)]
         if return_when == FIRST_COMPLETED:
             if any(f.done() for f in futs):
                 return
             c = cands()
             if c:
                 k = self.sched.pop(0) if self.sched else 0
-                pool.run(c[k % len(c)])
+                c[k % len(c)].resume(False)
             return
         while True:
             c = cands()
             if not c:
                 return
             k = self.sched.pop(0) if self.sched else 0
-            pool.run(c[k % len(c)])
+            c[k % len(c)].resume(False)
 
     # ---- ops
     def mk_cmd(self, c):
@@ -329,11 +710,20 @@ class World:
         try:
             if k == "tick":
                 self._tick(op)
-            elif k == "job":
+            elif k in ("job", "jobstep"):
                 h = op["h"]
                 if not self.crashed[h] and self.pools[h].jobs:
-                    self.cur = h
-                    self.pools[h].run(op["c"] % len(self.pools[h].jobs))
+                    job = self.pools[h].jobs[op["c"] % len(self.pools[h].jobs)]
+                    if k == "job":
+                        job.resume(False)
+                    else:
+                        f = op.get("fault") or "none"
+                        fault = None if f == "none" else (f, op.get("how") or "wait")
+                        self.observations.append({"kind": "jobstep", "h": h, "job": job.name, "stage": job.stage,
+                                                  "fault": f, "op": self.opno})
+                        job.resume(True, fault)
+            elif k == "etick":
+                self._etick(op)
             elif k == "adv":
                 self.now_ms += op["d"]
             elif k == "drop":
@@ -344,6 +734,13 @@ class World:
                 self._ctrl(op)
         except Exception as e:   # harness-level surprise: make it visible in the comparison
             self.events.append({"e": "harness-exception", "what": "%s: %s" % (type(e).__name__, e)})
+        for parts, info in self.pending_sent:       # zero-copy sends: what really went out
+            parts.fix()
+            self.events.append({"e": "sent", "h": info["h"], "idx": info["idx"], "ds": info["ds"], "value": parts[2].hex(),
+                                "deser": info["deser"]})
+            self.observations.append({"kind": "sent", "h": info["h"], "idx": info["idx"], "ds": info["ds"], "value": parts[2],
+                                      "deser": info["deser"], "to": info["to"], "op": self.opno})
+        self.pending_sent = []
         return self.abstract()
 
     def _tick(self, op):
@@ -367,10 +764,11 @@ class World:
         if self.crashed[h]:
             return
         self.cur = h
+        self.cur_job = None
         self.sched = list(op.get("sched", []))
         self.observations.append({"kind": "tick-begin", "h": h, "op": self.opno, "now": self.now_ms,
                                   "awaiting": {i: (self.dsno(c.ds), at) for i, (c, at) in srv.awaiting_confirmation.items()},
-                                  "acks": set(srv.acks), "invalid": {self.dsno(d) for d in srv.invalid},
+                                  "acks": set(getattr(srv, "acks", ())), "invalid": {self.dsno(d) for d in srv.invalid},
                                   "sock": [self.frame_json((self.aname(h), p)) for p in srv.dlistener.socket.queue]})
         srv._arm = 1
         try:
@@ -379,14 +777,34 @@ class World:
             self.crashed[h] = True
             s = str(e)
             why = (1 if "transmit idx conflict" in s else 2 if "unexpected transmit command" in s else
-                   3 if "asked for retry" in s else 4 if (isinstance(e, ValueError) and s.startswith("KeyError")) else
+                   3 if "asked for retry" in s else
                    5 if isinstance(e, KeyError) else 99)
             ev = {"e": "crashed", "h": h, "why": why}
             if why == 99:
                 ev["what"] = "%s: %s" % (type(e).__name__, s[:100])
             self.events.append(ev)
-            self.observations.append({"kind": "crashed", "h": h, "why": why, "what": s[:200], "op": self.opno})
+            self.observations.append({"kind": "crashed", "h": h, "why": why, "what": "%s: %s" % (type(e).__name__, s[:200]), "op": self.opno})
         self.observations.append({"kind": "tick-end", "h": h, "op": self.opno, "sock_left": len(srv.dlistener.socket.queue)})
+
+    def _etick(self, op):
+        h = op["h"]
+        x = self.exe[h]
+        M = self.M
+        for d in op.get("purges", []):
+            x.mlistener.socket.queue.append([pickle.dumps(M.DatasetPurge(ds=self.dsid(d)))])
+            self.observations.append({"kind": "purge-to-executor", "h": h, "ds": d, "op": self.opno,
+                                      "known": self.dsid(d) in x.datasets})
+        self.cur = h
+        self.cur_job = None
+        self.cur_exec = h
+        x._arm = 1
+        try:
+            x.recv_loop()
+        finally:
+            self.cur_exec = None
+        if x._terminated:
+            x._terminated = False
+            self.events.append({"e": "executor-terminated", "h": h})
 
     def _ctrl(self, op):
         i = op["i"]
@@ -395,6 +813,7 @@ class World:
         fr = self.net[i] if op["dup"] else self.net.pop(i)
         self.ctrl.socket.queue.append(list(fr[1]))
         self.cur = 0
+        self.cur_job = None
         m = self.ctrl._recv_one(0)
         if m is not None:
             self.events.append({"e": "ctrlGot", "p": self.pay_json(m)})
@@ -420,6 +839,19 @@ class World:
             return {"k": "purge", "ds": self.dsno(m.ds)}
         return {"k": "?", "type": type(m).__name__}
 
+    def emsg_json(self, parts):
+        M = self.M
+        if len(parts) != 1:
+            return {"k": "?", "n": len(parts)}
+        m = pickle.loads(parts[0])
+        if isinstance(m, M.DatasetPublished):
+            return {"k": "pub", "ds": self.dsno(m.ds), "idx": m.transmit_idx}
+        if isinstance(m, M.DatasetTransmitFailure):
+            return {"k": "fail"}
+        if isinstance(m, M.DatasetPurge):
+            return {"k": "purge", "ds": self.dsno(m.ds)}
+        return {"k": "?", "type": type(m).__name__}
+
     def frame_json(self, fr):
         addr, parts = fr
         if len(parts) == 3:
@@ -431,6 +863,32 @@ class World:
             return {"t": "plain", "dst": self.aid(addr), "m": self.msg_json(pickle.loads(parts[0]))}
         return {"t": "?", "dst": self.aid(addr), "n": len(parts)}
 
+    def shm_view(self, h):
+        """(store, allocd, other) read from the real Manager and the real segments"""
+        store, allocd, other = [], [], []
+        for k, ds in self.mgr[h].datasets.items():
+            d = self.key2ds.get(k, -1)
+            if ds.status.name == "in_memory":
+                try:
+                    c = self._segcache.get((h, k))
+                    if c is None or c[0] is not ds:      # contents are immutable once the writer has closed;
+                        c = (ds, self.segment(h, k).hex())   # the oracle re-reads the segments at the end
+                        self._segcache[(h, k)] = c
+                    store.append([d, c[1], ds.deser_fun])
+                except Exception as e:
+                    other.append([d, "segment:" + type(e).__name__])
+            elif ds.status.name == "created":
+                allocd.append(d)
+            else:
+                other.append([d, ds.status.name])
+        return sorted(store), sorted(allocd), sorted(other)
+
+    def shm_view_fresh(self, h):
+        """what is REALLY in the store of host h: bytes re-read from the segments"""
+        self._segcache = {k: v for k, v in self._segcache.items() if k[0] != h}
+        store, allocd, other = self.shm_view(h)
+        return {"store": {e[0]: (e[1], e[2]) for e in store}, "allocd": allocd, "other": other}
+
     def abstract(self):
         M = self.M
         hosts = []
@@ -438,27 +896,56 @@ class World:
             s = self.srv[h]
             futs = []
             for k, f in s.futs_in_progress.items():
-                if isinstance(k, M.DatasetTransmitCommand):
-                    kj = {"k": "cmd", "c": self.cmd_json(k)}
-                else:
-                    kj = {"k": "pay", "p": self.pay_json(k)}
-                res = None
+                res, stage = None, None
                 if f.done():
-                    res = ("exc:" + repr(f.exception())) if f.exception() else f.result() // MS
-                futs.append({"key": kj, "res": res})
-            hosts.append({
-                "store": sorted([self.key2ds.get(k, -1), v.hex(), f] for k, (v, f) in self.stores[h].items()),
+                    res = "exc" if f.exception() is not None else f.result() // MS
+                else:
+                    j = self.pools[h].job_of(f)
+                    stage = j.stage if j is not None else -1
+                futs.append({"key": self.key_json(k), "res": res, "stage": stage})
+            store, allocd, other = self.shm_view(h)
+            hj = {
+                "store": store,
                 "awaiting": [[i, self.cmd_json(c), None if at == -1 else at // MS] for i, (c, at) in s.awaiting_confirmation.items()],
-                "acks": sorted(s.acks),
+                "acks": sorted(getattr(s, "acks", ())),
                 "invalid": sorted(self.dsno(d) for d in s.invalid),
                 "futs": futs,
                 "acked": sorted([x.idx, self.aid(x.addr)] for x in s.dlistener.acked),
                 "sock": [self.frame_json((self.aname(h), p)) for p in s.dlistener.socket.queue],
                 "crashed": self.crashed[h],
-            })
+                "allocd": allocd,
+                "published": sorted(self.dsno(d) for d in self.exe[h].datasets),
+                "mbox": [self.emsg_json(p) for p in self.exe[h].mlistener.socket.queue],
+            }
+            if other:
+                hj["shm_other"] = other
+            hosts.append(hj)
         return {"hosts": hosts, "net": [self.frame_json(f) for f in self.net], "now": self.now_ms,
                 "ctrlAcked": sorted([x.idx, self.aid(x.addr)] for x in self.ctrl.acked),
                 "events": list(self.events)}
+
+    # ---- end of a case: no thread, no segment left behind
+    def close(self):
+        if self.closed:
+            return
+        self.closed = True
+        for h in self.hosts:
+            for j in list(self.pools[h].jobs):
+                if j.thread is not None and not j.finished:
+                    j.abort = True
+                    j.go.release()
+                    j.back.acquire(timeout=5)
+            try:
+                self.mgr[h].atexit()
+            except Exception:
+                pass
+            pref = self.mgr[h].prefix
+            for nm in os.listdir("/dev/shm"):
+                if nm.startswith(pref):
+                    try:
+                        os.unlink("/dev/shm/" + nm)
+                    except OSError:
+                        pass
 
 
 def canon_model(out):
@@ -469,6 +956,8 @@ def canon_model(out):
         h["acks"] = sorted(h["acks"])
         h["invalid"] = sorted(h["invalid"])
         h["acked"] = sorted(h["acked"])
+        h["allocd"] = sorted(h["allocd"])
+        h["published"] = sorted(h["published"])
     out["ctrlAcked"] = sorted(out["ctrlAcked"])
-    out["events"] = [e for e in out["events"] if e["e"] not in ("ignored", "ackRecv")]
+    out["events"] = [e for e in out["events"] if e["e"] not in ("ignored", "ackRecv", "purgeDropped")]
     return out
